@@ -136,6 +136,15 @@ pub fn ik_search(c: &Case, prop: &str) {
                         for s in &got { for j in 0..6 { if (s[j] - cen[j]).abs() > PI + 1e-9 { bad.push(format!("inverse_continuing(CONSTRAINT_CENTERED): joint {} of {:?} is not the representative nearest to the centre {}", j, s, cen[j])); } } }
                         for pair in got.windows(2) { if cost(&pair[0], &cen, &cen, w) > cost(&pair[1], &cen, &cen, w) + 1e-9 { bad.push("inverse_continuing(CONSTRAINT_CENTERED): answers not ordered by distance to the constraint centres".into()); } }
                     }
+                    // J6 values beyond half a turn must be carried through unchanged too
+                    if prop == "C06" {
+                        for j6 in [3.5f64, -4.0, 20.0] {
+                            for s in plain.inverse_5dof(&pp, j6) { if s[5] != j6 { bad.push(format!("inverse_5dof: J6 = {} instead of the caller's {}", s[5], j6)); } }
+                            let mut pv = prev; pv[5] = j6;
+                            for s in plain.inverse_continuing_5dof(&pp, &pv) { if (s[5] - j6).abs() > 1e-12 { bad.push(format!("inverse_continuing_5dof: J6 = {} instead of the previous {}", s[5], j6)); } }
+                            if dof5 { for s in plain.inverse_continuing(&pp, &pv) { if (s[5] - j6).abs() > 1e-12 { bad.push(format!("inverse_continuing (dof=5): J6 = {} instead of the previous {}", s[5], j6)); } } }
+                        }
+                    }
                     // previous realises the pose and is not singular => first
                     if prop == "C04" && !wrist_singular && !dof5 {
                         let s = plain.inverse_continuing(&pp, &qq);
